@@ -21,12 +21,45 @@ BOUNDS = {
     "quick": "coefficient: any integer; quantisation index 0..255; monotonicity up to index 300",
     "thorough": "coefficient: any integer; quantisation index 0..1023; monotonicity up to index 1100",
 }
-OUTSIDE = "quantisation indices above the bound (the bitstream expresses at most 255)"
+OUTSIDE = "quantisation indices above the bound (the bitstream expresses at most 255); float arithmetic (an implementation using floats makes the symbolic run inconclusive; a concrete probe of huge coefficients complements it)"
 ASSUMPTIONS = [
     "abs() inside vc2_conformance modules is replaced by a symbolic-aware abs (z3 If term); everything else is the repository's code",
 ]
 STUBS = ["abs/min/max/range shadowed in vc2_conformance module namespaces (delegate to builtins on concrete values)"]
 BUDGET_S = {"quick": 300, "thorough": 1500}
+
+
+def precheck():
+    """Concrete boundary probe, complementing the symbolic obligations: the engine models Python's unbounded ``int`` only, so
+    an implementation that detours through floats is out of its reach (the symbolic run then ends inconclusive, exit 3).
+    Very large coefficients around the float precision limits are therefore also evaluated on the plain code."""
+    from vc2_conformance.pseudocode import quantization as Q
+
+    out = []
+    xs = [0, 1, -1, 2, 3, 5, 1000]
+    for k in (10, 24, 31, 32, 52, 53, 54, 63, 64, 100, 200, 1100):
+        for d in (-1, 0, 1):
+            xs += [(1 << k) + d, -((1 << k) + d), 3 * (1 << k) + d]
+    for q in list(range(0, 256)):
+        for x in xs:
+            try:
+                y = Q.inverse_quant(Q.forward_quant(x, q), q)
+                bad = None
+                if not 4 * abs(x - y) < Q.quant_factor(q):
+                    bad = "error-below-one-step"
+                elif (x >= 0 and not y >= 0) or (x <= 0 and not y <= 0):
+                    bad = "sign"
+                elif q == 0 and y != x:
+                    bad = "index0-lossless"
+            except Exception as e:  # noqa
+                bad, y = "raises-%s" % type(e).__name__, None
+            if bad:
+                out.append({"label": "boundary-probe", "key": "C12:%s" % bad, "inputs": {"x": x, "q": q},
+                            "detail": "x=%d q=%d -> y=%r (concrete probe of very large coefficients)" % (x, q, y)})
+                break
+        if len(out) >= 3:
+            break
+    return out
 
 
 def tasks(tier, seed):
